@@ -19,9 +19,10 @@ class Unsupported(Exception):
 
 class Raised(Exception):
     """the fragment executes `raise X(...)` (or an operation that raises, such as pop from an empty list)"""
-    def __init__(self, kind: str):
+    def __init__(self, kind: str, obj: Any = None):
         super().__init__(kind)
         self.kind = kind
+        self.obj = obj          # the exception object a handler's `as name` receives, when the model provides one
 
 
 class Opaque:
@@ -181,7 +182,7 @@ class Mini:
                     for h in st.handlers:
                         if self._catches(h.type, ex.kind):
                             if h.name:
-                                self.env[h.name] = Opaque("exception " + ex.kind)
+                                self.env[h.name] = ex.obj if ex.obj is not None else Opaque("exception " + ex.kind)
                             for s in h.body:
                                 self.stmt(s)
                             break
@@ -249,6 +250,8 @@ class Mini:
     def truth(self, v: Any) -> bool:
         if isinstance(v, (bool, int, str, list, tuple, type(None), range, set, dict)):
             return bool(v)
+        if isinstance(v, SimpleNamespace) and isinstance(getattr(v, "truthy", None), bool):
+            return v.truthy         # the rule's model states the object's truth value (e.g. a coroutine object: always true)
         raise Unsupported(f"truth value of {type(v).__name__}")
 
     def index(self, s: ast.AST) -> Any:
@@ -575,6 +578,8 @@ class Mini:
                     return list(src) if f == "list" else tuple(src)
             if f == "set" and len(args) <= 1 and (not args or isinstance(args[0], (list, tuple, set, range))):
                 return set(args[0]) if args else set()
+            if f == "frozenset" and len(args) <= 1 and (not args or isinstance(args[0], (list, tuple, set, frozenset, range))) and all(isinstance(x, (int, str, type(None))) for x in (args[0] if args else ())):
+                return frozenset(args[0]) if args else frozenset()
             if f == "reversed" and len(args) == 1 and isinstance(args[0], (list, tuple)):
                 return list(reversed(args[0]))
             if f == "str" and len(args) == 1 and isinstance(args[0], (str, int)):
